@@ -39,14 +39,20 @@ FACTS_V = """From Coq Require Import List Bool String.
 Import ListNotations.
 From BWConc Require Import Conc.
 From BWConc.Gen Require Import LockFactsGen.
-Definition bad (chk : method -> path -> bool) : list string :=
-  map m_name (filter (fun m => negb (forallb (chk m) (m_paths m))) (mt_methods memory_methods)).
-Definition F_locks := Eval vm_compute in (locks_ok memory_methods, bad (fun _ => path_locks_ok (mt_guard memory_methods))).
-Definition F_close := Eval vm_compute in (close_ok memory_methods, bad (fun m => path_close_ok (m_chan m))).
-Definition F_params := Eval vm_compute in (params_ok memory_methods, bad (fun _ => path_params_ok)).
+Definition bad (chk : method -> bool) : list string :=
+  map m_name (filter (fun m => negb (chk m)) (mt_methods memory_methods)).
+Definition gd := mt_guard memory_methods.
+Definition F_locks := Eval vm_compute in
+  (locks_ok memory_methods, bad (fun m => forallb (path_locks_ok gd) (m_paths m) && body_check accept_locks gd m)).
+Definition F_close := Eval vm_compute in
+  (close_ok memory_methods, bad (fun m => forallb (path_close_ok (m_chan m)) (m_paths m) && body_check accept_close gd m)).
+Definition F_params := Eval vm_compute in
+  (params_ok memory_methods, bad (fun m => forallb path_params_ok (m_paths m) && body_check accept_params gd m)).
 Definition F_hash := Eval vm_compute in (all_same_hash memory_lookup_hashes, List.length memory_lookup_hashes).
 Definition F_sect := Eval vm_compute in
-  (forallb (one_section_method memory_methods) ("memory.AddTriples" :: "memory.Exist" :: memory_lookup_names)).
+  (forallb (one_section_method memory_methods)
+     ("memory.AddTriples" :: "memory.RemoveTriples" :: "memory.Exist" :: "memoryStore.NewGraph" :: "memoryStore.Graph" ::
+      "memoryStore.DeleteGraph" :: "memoryStore.GraphNames" :: memory_lookup_names)).
 Definition F_counts := Eval vm_compute in
   (List.length (mt_methods memory_methods), fold_right plus 0 (map (fun m => List.length (m_paths m)) (mt_methods memory_methods))).
 Print F_locks. Print F_close. Print F_params. Print F_hash. Print F_sect. Print F_counts.
@@ -107,8 +113,19 @@ def hconc(args, race=False, timeout=900):
                 pass
     races = parse_races(out) if race else []
     if rc not in (0, 3) or not rows:
+        # the harness process died: a Go runtime fatal error (concurrent map access, unlock of unlocked RWMutex, all
+        # goroutines asleep) is itself a failing input; anything else is a broken harness
+        m = re.search(r"^(fatal error: .*|panic: .*)$", out, flags=re.M)
+        if m:
+            CRASHES.append({"kind": "store-crashes-under-concurrent-use", "error": m.group(1)[:200], "mode": " ".join(args[:2]),
+                            "seed": args[args.index("-seed") + 1] if "-seed" in args else None,
+                            "stack_head": [l.strip() for l in out[m.end():].splitlines() if "badwolf" in l][:6]})
+            return rows or [{"result": "crashed"}], races
         raise vcheck.Broken("h_conc %s failed (exit %d)" % (" ".join(args), rc), out[-3000:])
     return rows, races
+
+
+CRASHES = []
 
 
 FRAME = re.compile(r"^\s+(/\S+\.go):(\d+)")
@@ -168,11 +185,12 @@ def dynamic(ctx, state_unfixed, record=True):
     seed = str(ctx.seed)
     problems, meas = [], {}
     f7_seen = []
+    del CRASHES[:]
     build_race()
     # 0. the sequential reference of the harness agrees with the store (otherwise the linearizability runs mean nothing)
     st, _ = hconc(["-mode", "selftest", "-n", "1500" if quick else "20000", "-seed", seed])
     meas["selftest"] = {k: st[-1].get(k) for k in ("ops", "mismatches", "lookups", "nonempty_lookups")}
-    if st[-1].get("mismatches", 1) != 0:
+    if st[-1].get("result") != "crashed" and st[-1].get("mismatches", 1) != 0:
         problems.append({"kind": "sequential-reference-mismatch", "first": st[-1].get("first"),
                          "explain": "single-goroutine run: the store and h_conc's reference model disagree"})
     # 1. linearizability of recorded concurrent histories
@@ -189,6 +207,7 @@ def dynamic(ctx, state_unfixed, record=True):
                     problems.append({"kind": "porcupine-vs-bruteforce-disagree", "summary": r})
         for rp in races:
             problems.append({"kind": "data-race", "where": "lin", "report": rp})
+    lin_rows = [r for r in lin_rows if "round" in r]
     for r in lin_rows:
         if r["result"] == "illegal":
             problems.append({"kind": "non-linearizable-history", "history": r.get("history"), "round": r["round"],
@@ -208,6 +227,8 @@ def dynamic(ctx, state_unfixed, record=True):
             "result", "ops", "shared_latest", "panics", "panic_kinds", "not_closed", "error_not_closed", "value_after_close",
             "options_modified", "options_modified_in_flight", "latest_and_filter_on_shared", "nil_channel_ok", "errors")}
             | {"race_reports": len(races)})
+        if r.get("result") == "crashed":
+            continue
         if r.get("result") != "done":
             problems.append({"kind": "hang-or-deadlock", "where": "stress", "detail": {k: r.get(k) for k in ("result", "goroutines")}})
             continue
@@ -252,7 +273,7 @@ def dynamic(ctx, state_unfixed, record=True):
     meas["replay"] = {k: rep.get(k) for k in ("reproduced", "b_error", "a_error", "b_closed", "b_equals_a", "options_after")}
     rows, _ = hconc(["-mode", "replay", "-variant", "writer"])
     meas["replay_writer"] = {k: rows[-1].get(k) for k in ("writer_blocked_while_consumer_idle", "writer_completed_after_drain")}
-    if not rows[-1].get("writer_completed_after_drain", False):
+    if rows[-1].get("result") != "crashed" and not rows[-1].get("writer_completed_after_drain", False):
         problems.append({"kind": "writer-never-completes", "detail": meas["replay_writer"]})
     if rep.get("reproduced") and not state_unfixed:
         problems.append({"kind": "translator-missed-a-parameter-write", "detail": meas["replay"],
@@ -264,6 +285,7 @@ def dynamic(ctx, state_unfixed, record=True):
         ctx.notes.append("model witness (two lookups sharing one options value) did not reproduce on the real store: "
                          "the translator reports a parameter write that has no effect at run time")
     meas["f7_seen"] = f7_seen
+    problems = CRASHES + problems
     return problems, meas
 
 
